@@ -1065,6 +1065,10 @@ class Ctx:
         if m is not None:
             self.trace.append("model " + key)
             return m(self, args, callee)
+        if getattr(self, "opaque_calls", False):
+            # opt-in (obligations about pure data shuffling): an unknown callee yields an uninterpreted value
+            self.trace.append("opaque " + key)
+            return Opaque("result of " + key)
         raise Inconclusive(f"unknown callee `{callee}` (normalised `{key}`)")
 
     def pin_project_replace(self, f, args):
